@@ -274,7 +274,19 @@ def run(ctx):
             packs = [n for n in walk_local(wfn) if isinstance(n, ast.Call) and (call_name(n) or '').split('.')[-1] == 'pack']
             zero = [p for p in packs if len(p.args) == 2 and isinstance(p.args[1], ast.Constant) and p.args[1].value == 0]
             vals = [p for p in packs if p not in zero]
-            okp = len(zero) == 1 and len(vals) == 1 and U(zero[0].args[0]) == U(vals[0].args[0]) and zero[0].lineno > vals[0].lineno
+            def widths(f):
+                # the sizes the format can have: a literal, or an instance field assigned literals only
+                import struct as _st
+                lits = [f.value] if isinstance(f, ast.Constant) else None
+                if lits is None and is_self_attr(f):
+                    asg = [n.value for fn_ in ms.values() for n in walk_local(fn_) if isinstance(n, ast.Assign) and is_self_attr(n.targets[0], f.attr)]
+                    lits = [a.value for a in asg] if asg and all(isinstance(a, ast.Constant) for a in asg) else None
+                try:
+                    return {_st.calcsize(x) for x in lits} if lits and all(isinstance(x, str) for x in lits) else None
+                except _st.error:
+                    return None
+            okp = len(zero) == 1 and len(vals) == 1 and widths(zero[0].args[0]) == {4} and widths(vals[0].args[0]) == {4} \
+                and (zero[0].lineno, zero[0].col_offset) > (vals[0].lineno, vals[0].col_offset)
             ctx.check(okp, 'C02.R1', '%s|pad-word-written' % cname, site, 'value word followed by a zero word of the same width', '%s does not write a zero pad word of the same width after its 4-byte value' % cname)
             rfn = ms.get('read_value') or ms.get('read')
             unp = [n for n in walk_local(rfn) if isinstance(n, ast.Call) and (call_name(n) or '').split('.')[-1] == 'unpack']
